@@ -34,7 +34,7 @@ def civil(dt):
 
 def gen_case(rng, tier):
     from vh import matchers
-    kind = rng.choice(['std', 'std', 'multi', 'derived'])
+    kind = rng.choice(['std', 'std', 'multi', 'derived', 'ampm', 'nosec', 'loose'])
     r = rng.random()
     if r < 0.5:
         cur = datetime.strptime(rng.choice(SPECIAL + (SPECIAL_STD if kind != 'derived' else [])),
@@ -50,6 +50,8 @@ def gen_case(rng, tier):
         kw['hours'] = rng.choice([0, 1, 24, 100, 10000])
     days = kw.get('days', 0)
     hours = 0 if days else kw.get('hours', 24)
+    if kind == 'nosec':
+        cur = cur.replace(second=0)
     since = cur - timedelta(days=days, hours=hours)
     lines = []
     for _ in range(rng.randrange(4, 40 if tier == 'quick' else 120)):
@@ -67,6 +69,10 @@ def gen_case(rng, tier):
             t = None
         if t is not None and not 1000 <= t.year <= 9999:
             t = None
+        if t is not None and kind == 'nosec':
+            t = t.replace(second=0) + timedelta(minutes=rng.choice([0, 0, 1, -1]))
+        if t is not None and kind in ('ampm', 'nosec') and rng.random() < 0.3:
+            t = t.replace(hour=rng.choice([0, 12]), minute=rng.choice([0, 30]))
         if t is None:
             lines.append(rng.choice(['', 'no timestamp here', '2023-02-30 00:00:00 x',
                                      ' 2023-01-01 00:00:00 leading space', '2023-01-01',
